@@ -194,11 +194,13 @@ def h_interpolate_curve(cx, n, p, dim, family):
         cx.eq('interpolates[%d]' % i, c.evaluate_single(t[i]), pts[i])
 
 
-def h_interpolate_surface(cx, su, sv, pu, pv, family):
+def h_interpolate_surface(cx, su, sv, pu, pv, family, same_params=False):
     Fit = geo.M('fitting')
     pts = cx.points('Q', su * sv, 3)
     uk = cx.consts(_param_family(family, su))
     vl = cx.consts(_param_family('geometric' if family == 'uniform' else 'uniform', sv))
+    if same_params:
+        vl = list(uk)          # square grid, the very same parameters in both directions (but other degrees)
     with _Stub(curve=None, surface=(uk, vl)):
         s = Fit.interpolate_surface([list(q) for q in pts], su, sv, pu, pv)
     cx.check('degrees', (s.degree_u, s.degree_v) == (pu, pv))
@@ -270,6 +272,8 @@ def instances(tier):
     for su, sv, pu, pv in ((3, 3, 2, 2), (4, 3, 2, 1), (3, 4, 1, 2), (4, 5, 3, 2)) + (() if quick else ((6, 5, 3, 3), (5, 4, 2, 3))):
         for famname in ('uniform', 'chordlike'):
             out.append(inst('interpolate_surface %s %dx%d p%d,%d' % (famname, su, sv, pu, pv), h_interpolate_surface, timeout=2400, su=su, sv=sv, pu=pu, pv=pv, family=famname))
+    for su, pu, pv, famname in ((4, 3, 2, 'uniform'), (4, 2, 3, 'chordlike'), (3, 1, 2, 'geometric'), (4, 3, 3, 'clustered')):
+        out.append(inst('interpolate_surface %s %dx%d p%d,%d same parameters in u and v' % (famname, su, su, pu, pv), h_interpolate_surface, timeout=2400, su=su, sv=su, pu=pu, pv=pv, family=famname, same_params=True))
     out.append(inst('approximate_curve symbolic-params n4 p1 cp3', h_approximate_curve, timeout=2400, n=4, p=1, ncp=3, dim=2, family='symbolic'))
     for famname in ('uniform', 'chordlike', 'clustered'):
         for n, p, ncp in ((5, 2, 4), (6, 3, 5), (8, 3, 5), (7, 2, 4), (6, 1, 3)) + (() if quick else ((10, 3, 6), (12, 3, 7), (12, 4, 6))):
